@@ -38,10 +38,16 @@ func init() {
 func runC18(c *Ctx) {
 	scope := c.P.Funcs(Mod + "/" + pkgProxy)
 	lc := NewLockCtx(c.P, scope)
-	isPings := func(cc *ssa.CallCommon) bool {
-		return !cc.IsInvoke() && len(cc.Args) > 0 && strings.HasSuffix(PathOf(cc.Args[0]), ".pendingPings")
+	// the pending keep-alive table (pendingPings; by type if it was renamed)
+	ppVar := c.P.FieldVarLike(pkgProxy+":serverConnection", "pendingPings", "SyncCache[int64")
+	pp := "pendingPings"
+	if ppVar != nil {
+		pp = ppVar.Name()
 	}
-	if c.P.FieldVar(pkgProxy+":serverConnection", "pendingPings") == nil {
+	isPings := func(cc *ssa.CallCommon) bool {
+		return !cc.IsInvoke() && len(cc.Args) > 0 && strings.HasSuffix(PathOf(cc.Args[0]), "."+pp)
+	}
+	if ppVar == nil {
 		c.Undecided("anchor", "serverConnection.pendingPings", "field does not resolve")
 		return
 	}
@@ -49,7 +55,7 @@ func runC18(c *Ctx) {
 	for _, fn := range scope {
 		for _, ci := range callsIn(fn, func(n string, cc *ssa.CallCommon) bool { return isPings(cc) }) {
 			c.Analysed(fn)
-			base := strings.TrimSuffix(PathOf(ci.Common().Args[0]), ".pendingPings")
+			base := strings.TrimSuffix(PathOf(ci.Common().Args[0]), "."+pp)
 			held := lc.At(ci)
 			c.Check("pings-locked", fmt.Sprintf("%s@%s", methodName(ci.Common()), shortName(fn)), ci, held[base+".mu"] == 'W',
 				fmt.Sprintf("pendingPings.%s must run under %s.mu (exclusive) so that lookup+delete is atomic; held: %s", methodName(ci.Common()), base, held))
@@ -168,7 +174,7 @@ func runC18(c *Ctx) {
 			}
 			return false
 		})
-		c.Check("write-state-gate", "WritePacket@sendKeepAliveToBackend", ci, g2 && n2 >= 2 && allowed,
+		c.Check("write-state-gate", "WritePacket@sendKeepAliveToBackend", ci, g2 && n2 > 0 && allowed,
 			"the backend write must be dominated by backendState == Config || backendState == Play")
 		// right backend: receiver derives from <serverConn>.conn() of the consumed serverConn
 		var consumeCall *ssa.Call
